@@ -778,7 +778,10 @@ def simple_regex(pattern):
                     ranges.append((ord(body[k]), ord(body[k])))
                     k += 1
             i = j + 1
-        elif c in '.*+?()|\\{}':
+        elif c == '.':
+            ranges = [(0, 9), (11, 0x10FFFF)]
+            i += 1
+        elif c in '*+?()|\\{}':
             return None
         else:
             ranges = [(ord(c), ord(c))]
@@ -802,6 +805,8 @@ def regex_match(it, pat, s, mode):
     if isinstance(s, str):
         m = getattr(pat, mode)(s)
         return m
+    if isinstance(pat, SymRegex):
+        return symregex_match(it, pat, s, mode)
     if pat.flags & ~re.UNICODE & ~re.IGNORECASE:
         raise Unsupported("regex flags")
     parsed = simple_regex(pat.pattern)
@@ -823,11 +828,72 @@ def regex_match(it, pat, s, mode):
     cs = []
     for c, ranges in zip(chars, seq):
         alts = []
-        for lo, hi in ranges:
-            if pat.flags & re.IGNORECASE:
-                raise Unsupported("IGNORECASE on symbolic text")
+        rs = list(ranges)
+        if pat.flags & re.IGNORECASE:
+            for lo, hi in ranges:
+                if hi - lo > 100:
+                    continue
+                for x in range(lo, hi + 1):
+                    ch = chr(x)
+                    if ch.isascii() and ch.isalpha():
+                        y = ord(ch.swapcase())
+                        rs.append((y, y))
+                    elif not ch.isascii() and ch.lower() != ch.upper():
+                        raise Unsupported("IGNORECASE with non-ASCII pattern letters")
+            # non-ASCII text characters that case-fold to ASCII letters (e.g. U+017F, U+212A) are not modelled
+            nonascii_ok = False
+        for lo, hi in rs:
             alts.append(z3.And(zint(c) >= lo, zint(c) <= hi))
         cs.append(z3.Or(*alts) if len(alts) > 1 else alts[0])
+    cond = simp(z3.And(*cs)) if cs else True
+    if ctx.decide(cond):
+        return MatchObj()
+    return None
+
+
+class SymRegex:
+    """compiled regex of a symbolic pattern whose characters are hex digits or '.' (wildcard tables)"""
+
+    def __init__(self, chars, flags):
+        self.chars = chars
+        self.flags = flags
+        self.pattern = None
+
+
+def m_re_compile(it, pattern, flags=0):
+    ctx = it.ctx
+    if isinstance(pattern, str) and isinstance(flags, int):
+        try:
+            return re.compile(pattern, flags)
+        except re.error as e:
+            raise Raised(ExcObj(re.error, e.args))
+    chars = ops.expand_str(ctx, pattern)
+    ok = z3.And(*[z3.Or(ops.is_hexdigit(c), zint(c) == 46) for c in chars]) if chars else True
+    if not ctx.is_true(ok):
+        raise Unsupported("re.compile of a symbolic pattern outside [0-9A-Fa-f.]*")
+    ctx.assumed_models.add("re.compile(p, IGNORECASE).fullmatch(s) for p in [0-9A-Fa-f.]*: position-wise wildcard match "
+                           "(assumed equal to CPython's re; cross-checked natively on the shipped tables)")
+    return SymRegex(chars, flags)
+
+
+def symregex_match(it, rx, s, mode):
+    ctx = it.ctx
+    if mode != 'fullmatch':
+        raise Unsupported("symbolic regex %s" % mode)
+    chars = ops.expand_str(ctx, s)
+    if len(chars) != len(rx.chars):
+        return None
+
+    def low(x):
+        x = zint(x)
+        return z3.If(z3.And(x >= 65, x <= 90), x + 32, x)
+    cs = []
+    for p, c in zip(rx.chars, chars):
+        if rx.flags & re.IGNORECASE:
+            eq = low(p) == low(c)
+        else:
+            eq = zint(p) == zint(c)
+        cs.append(z3.If(zint(p) == 46, zint(c) != 10, eq))
     cond = simp(z3.And(*cs)) if cs else True
     if ctx.decide(cond):
         return MatchObj()
@@ -885,6 +951,7 @@ _reg(importlib.import_module, model_import_module)
 _reg(int.from_bytes, m_int_from_bytes)
 _reg(bytes.fromhex, m_bytes_fromhex)
 _reg(math.ceil, m_math_ceil)
+_reg(re.compile, m_re_compile)
 _reg(json.dumps, m_json_dumps)
 _reg(json.loads, m_json_loads)
 _reg(os.path.join, model_os_path_join)
@@ -998,7 +1065,7 @@ def call_method(it, v, name, args, kwargs):
         if name == 'bit_length' and isinstance(v, int):
             return v.bit_length()
         raise Unsupported("int.%s" % name)
-    if isinstance(v, re.Pattern):
+    if isinstance(v, (re.Pattern, SymRegex)):
         if name in ('match', 'fullmatch', 'search'):
             return regex_match(it, v, args[0], name)
         if is_concrete(args):
@@ -1089,6 +1156,11 @@ def str_method(it, s, name, args, kwargs):
     if name == 'split':
         raise Unsupported("str.split on symbolic text")
     if name == 'replace':
+        if is_concrete(args) and len(args) == 2 and len(args[0]) == 1 and len(args[1]) == 1 and \
+                isinstance(s, SStr) and s.all_chars():
+            old, new = ord(args[0]), ord(args[1])
+            return mkstr([new if c == old else c if isinstance(c, int) else simp(z3.If(c == old, I(new), c))
+                          for c in s.segs])
         if is_concrete(args):
             ctx.assumed_models.add("str.replace on symbolic text: function of (text, old, new)")
             f = ufun('replace_%s_%s' % tuple('_'.join('%02x' % ord(c) for c in a) for a in args[:2]), PyStr, PyStr)
